@@ -70,7 +70,7 @@ SYNC_BAD = re.compile(r"thread::spawn|\.await\b|\basync\b|mpsc::|\.send\(|crossb
 
 def facts(src, strip_comments, fn_body):
     out = {"blocked": None, "removed_eval": None, "removed_load": None, "executor": None,
-           "sync": None, "sync_why": "", "quirks": {}, "time_limit": None, "memory_limit": None, "reply_depth_limit": None}
+           "sync": None, "sync_why": "", "quirks": {}, "time_limit": None, "memory_limit": None, "reply_depth_limit": None, "bytecode_refused": None}
     eng = strip_comments(src("storage/lua_engine.rs"))
     body = fn_body(eng, "execute_unified_redis_command")
     if body is not None:
@@ -201,6 +201,11 @@ def facts(src, strip_comments, fn_body):
             c = m and re.search(r"const\s+" + m.group(1) + r"\s*:\s*(?:std::time::)?Duration\s*=\s*(?:std::time::)?Duration::from_(secs|millis)\(\s*([0-9_]+)\s*\)\s*;", eng)
             if c:
                 out["time_limit"] = int(c.group(2).replace("_", "")) * (1000 if c.group(1) == "secs" else 1)
+    # ---- precompiled chunks: does the state scripts run in refuse them?  (string.dump removed, loadstring replaced by a loader that
+    #      tests the bytecode signature byte 0x1b)
+    if ctx is not None:
+        out["bytecode_refused"] = bool(re.search(r'\.set\(\s*"dump"\s*,\s*mlua::Nil\s*\)', ctx)) and bool(re.search(r"0x1[bB]", ctx)) \
+            and bool(re.search(r'globals\s*\.\s*set\(\s*"loadstring"', ctx))
     # ---- the nesting depth at which the return-value conversion stops (0 = it recurses without limit)
     l2r_body = fn_body(eng, "lua_value_to_resp")
     if l2r_body is not None:
@@ -276,6 +281,12 @@ def generate(src, strip_comments, fn_body, header):
         L.append("/-- the bound on a script's run time in milliseconds, 0 = none: `LuaEngine::eval` (EVAL and EVALSHA, a fresh Lua state per script)")
         L.append("    installs a count hook (`every_nth_instruction`) that compares `start_time.elapsed()` with a `const ...: Duration` and raises a Lua error -/")
         L.append("def luaScriptTimeLimit : Nat := %d" % f["time_limit"])
+    if f["bytecode_refused"] is None:
+        L.append('def luaBytecodeRefused : Bool := extraction_failed "create_lua_context not recognised"')
+    else:
+        L.append("/-- `create_lua_context` removes `string.dump` and replaces `loadstring` by a loader that refuses chunks beginning with the bytecode")
+        L.append("    signature 0x1b (Lua 5.1 executes precompiled chunks without validation) -/")
+        L.append("def luaBytecodeRefused : Bool := %s" % ("true" if f["bytecode_refused"] else "false"))
     if f["reply_depth_limit"] is None:
         L.append('def luaReplyDepthLimit : Nat := extraction_failed "depth test of lua_value_to_resp (src/storage/lua_engine.rs) not recognised"')
     else:
